@@ -21,7 +21,8 @@ CONSTANTS IdLen,        \* ids:   id sequences up to this length over IdAlphabet
           PolyLen,      \* poly:  arrays of 1..PolyLen atoms over the 11 keys of PolyKeys
           InterA, InterB, \* inter: array / intersect lengths over 4 rows
           LinLen,       \* lin:   up to LinLen displacements (LinLen + 1 atoms)
-          BBLen         \* bb:    up to BBLen atoms
+          BBLen,        \* bb:    up to BBLen atoms
+          AltLen        \* alt:   1..AltLen atoms over 2 residue keys x 5 altloc ids x 3 occupancy vectors
 
 VARIABLES kind, c, r
 vars == <<kind, c, r>>
@@ -66,7 +67,11 @@ ResidCalls(n) == {<<"repair_res_ids", <<b>>>> : b \in BOOLEAN}
 NameChars == {"C", "A", "H", "E", "K", "Q", "F", "1", "a", "'"}
 NameRow(nm) == [Row0 EXCEPT ![5] = nm]
 NameLists == BSeq({TCA, <<"F", "E", "1">>, NoText, <<"1", "H">>}, 3)
-NameInputs == {Plain(<<NameRow(nm)>>) : nm \in BSeq(NameChars, NameLen)}
+\* every element symbol as a name, followed by a digit, by a letter that makes no symbol, in lower case
+TableNames == UNION {{ElemSyms[k], ElemSyms[k] \o <<"1">>, ElemSyms[k] \o <<"X">>,
+                      [j \in DOMAIN ElemSyms[k] |-> LowerChars[CHOOSE i \in 1..26 : UpperChars[i] = ElemSyms[k][j]]]} :
+                       k \in DOMAIN ElemSyms}
+NameInputs == {Plain(<<NameRow(nm)>>) : nm \in BSeq(NameChars, NameLen) \cup TableNames}
                 \cup {Plain([k \in DOMAIN l |-> NameRow(l[k])]) : l \in NameLists}
 NameCalls == {<<"infer_elements", <<>>>>}
 
@@ -84,7 +89,14 @@ AtomKinds ==      \* <<res_name, atom_name, element>>
    <<<<"U">>, TP, TP>>, <<<<"P", "Y", "L">>, TCA, TC>>,          \* canonical names the dictionary lacks
    <<<<"Z", "Z", "Z">>, TN, TN>>, <<TCA, TCA, TCA>>}              \* unknown residue; calcium ion
 KindRow(k) == [Row0 EXCEPT ![4] = k[1], ![5] = k[2], ![6] = k[3]]
+\* every name of the fixed lists and of the dictionary (one atom each), every backbone atom name
+ListedNames == CanonicalAA \cup CanonicalNuc \cup SolventNames \cup DOMAIN CCDType
+                 \cup {<<"D", "U">>, <<"T">>, <<"H", "O">>, <<"A", "L">>, <<"a", "l", "a">>}
+ListedKinds == {<<nm, TCA, TC>> : nm \in ListedNames}
+                 \cup {<<res, an, TC>> : res \in {T_ALA, T_DA}, an \in PeptideBackboneAtoms \cup PhosphateBackboneAtoms
+                                                                  \cup {<<"O", "P", "1">>, <<"C", "B">>, <<"C", "2", "'">>}}
 FiltInputs == {Plain([k \in DOMAIN l |-> KindRow(l[k])]) : l \in BSeq(AtomKinds, FiltLen) \ {<<>>}}
+                \cup {Plain(<<KindRow(k)>>) : k \in ListedKinds}
 FiltCalls == {<<f, <<>>>> : f \in AtomFilters}
 
 (* ---------------------------------------------------------------- poly *)
@@ -123,18 +135,28 @@ BBInputs == {Inp(<<>>, FALSE, <<>>, <<>>, FALSE)}
                              ks \in [1..n -> BBKinds], ds \in [1..(n - 1) -> BBDisps]} : n \in 1..BBLen}
 BBCalls == {<<"check_backbone_continuity", a>> : a \in {<<>>, <<<<5, 4, 7, 4>>>>}}
 
+(* ---------------------------------------------------------------- alt *)
+AltKeys == {<<TA, 1, NoText, T_ALA>>, <<TA, 2, NoText, T_ALA>>}
+AltInputs == {Plain([k \in DOMAIN ks |-> KeyRow(ks[k])]) : ks \in BSeq(AltKeys, AltLen)}
+AltIds == {NoText, <<"A">>, <<"B">>, <<"a">>, <<"1">>}
+AltIdsOne == AltIds \cup NoAltIds \cup {<<"Z">>, <<"*">>}         \* single atoms: every "no id" spelling
+OccVectors(n) == {[k \in 1..n |-> 2], [k \in 1..n |-> k], [k \in 1..n |-> n + 1 - k]}
+AltSeqs(n) == IF n = 1 THEN {<<x>> : x \in AltIdsOne} ELSE [1..n -> AltIds]
+AltCalls(n) == {<<"filter_first_altloc", <<al>>>> : al \in AltSeqs(n)}
+                 \cup {<<"filter_highest_occupancy_altloc", <<al, oc>>>> : al \in AltSeqs(n), oc \in OccVectors(n)}
+
 (* ---------------------------------------------------------------- the model *)
-Families == {"ids", "dup", "resid", "names", "elems", "filt", "poly", "inter", "lin", "bb"}
+Families == {"ids", "dup", "resid", "names", "elems", "filt", "poly", "inter", "lin", "bb", "alt"}
 InputsOf(fam) ==
   CASE fam = "ids" -> IdInputs [] fam = "dup" -> DupInputs [] fam = "resid" -> ResidInputs
     [] fam = "names" -> NameInputs [] fam = "elems" -> ElemInputs [] fam = "filt" -> FiltInputs
     [] fam = "poly" -> PolyInputs [] fam = "inter" -> InterInputs [] fam = "lin" -> LinInputs
-    [] fam = "bb" -> BBInputs
+    [] fam = "bb" -> BBInputs [] fam = "alt" -> AltInputs
 CallsOf(fam, inp) ==
   CASE fam = "ids" -> IdCalls [] fam = "dup" -> DupCalls [] fam = "resid" -> ResidCalls(Len(inp.rows))
     [] fam = "names" -> NameCalls [] fam = "elems" -> ElemCalls [] fam = "filt" -> FiltCalls
     [] fam = "poly" -> PolyCalls(Len(inp.rows)) [] fam = "inter" -> InterCalls
-    [] fam = "lin" -> LinCalls(Len(inp.rows)) [] fam = "bb" -> BBCalls
+    [] fam = "lin" -> LinCalls(Len(inp.rows)) [] fam = "bb" -> BBCalls [] fam = "alt" -> AltCalls(Len(inp.rows))
 
 Case(fam, inp, op, a) == [fam |-> fam, inp |-> inp, op |-> op, a |-> a]
 NoResult == R("ok", <<>>, "any")
@@ -181,4 +203,5 @@ InvPoly == (kind = "case" /\ c.fam = "poly" /\ r.oc = "ok") =>
 InvInter == At("inter", "filter_intersection") => Law_Intersection(c.inp.rows, c.inp.hasId, c.inp.rowsB, c.inp.hasIdB)
 InvLin == At("lin", "check_linear_continuity") => Law_Linear(c.inp.pts, LimOf(c.a))
 InvBB == At("bb", "check_backbone_continuity") => Law_Backbone(c.inp.rows, c.inp.pts, LimOf(c.a))
+InvAlt == At("alt", "filter_highest_occupancy_altloc") => Law_Altloc(KeysOf(c.inp.rows), c.a[1], c.a[2])
 =============================================================================
